@@ -55,6 +55,27 @@ Children(t, p) == {q \in DOMAIN t : Len(q) = Len(p) + 1 /\ Parent(q) = p}
 Put(t, p, e) == [q \in DOMAIN t \cup {p} |-> IF q = p THEN e ELSE t[q]]
 Del(t, ps)   == [q \in DOMAIN t \ ps |-> t[q]]
 
+(***************************************************************************)
+(* The readers, as functions of a tree (bound to the code by Trace_Model:  *)
+(* the Tree_walk_.. and Tree_fullpath_.. clauses).                         *)
+(*   walk(<ns>_path='/') yields one triple per directory: the directory,   *)
+(*   the names of its sub-directories, the names of everything else.       *)
+(*   full_path_from_dirrecord(get_record(p)) names the object found at p.  *)
+(***************************************************************************)
+DirsOf(t) == {Root} \cup {p \in DOMAIN t : t[p].k = "dir"}
+WalkOf(t) == {<<d, {q[Len(q)] : q \in {c \in Children(t, d) : t[c].k = "dir"}},
+                   {q[Len(q)] : q \in {c \in Children(t, d) : t[c].k # "dir"}}>> : d \in DirsOf(t)}
+WalkMentions(w) == UNION {{x[1] \o <<n>> : n \in x[2] \cup x[3]} : x \in w}
+\* every entry is listed by exactly the walk triple of its parent (a consequence of TreeClosed)
+WalkCoversTree(t) == WalkMentions(WalkOf(t)) = DOMAIN t
+\* q is an admissible answer of full_path_from_dirrecord for the record found at p: the path itself;
+\* a UDF File Entry that several names share (hard links) may answer with any name of that content
+SameObject(t, udfns, p, q) ==
+    /\ p \in DOMAIN t /\ q \in DOMAIN t
+    /\ IF udfns /\ t[p].k = "file" /\ t[p].ino # 0
+       THEN t[q].k = "file" /\ t[q].ino = t[p].ino
+       ELSE q = p
+
 HasNs(st, ns) == CASE ns = "iso" -> TRUE
                    [] ns = "jol" -> st.cfg.joliet # 0
                    [] ns = "udf" -> st.cfg.udf
@@ -435,7 +456,8 @@ NamespacesSane(st) ==
 LegalNames(st) == \A ns \in NSs : \A p \in DOMAIN Tree(st, ns) :
     Legality(st, ns, p[Len(p)], Tree(st, ns)[p].k) # "illegal"
 DepthRule(st) == \A p \in DOMAIN st.iso : ~TooDeep(st, "iso", p)
+ReadersTotal(st) == WalkCoversTree(st.iso) /\ WalkCoversTree(st.jol) /\ WalkCoversTree(st.udf)
 
 StateOK(st) == TreeClosed(st) /\ NoOrphanInode(st) /\ NoDanglingRef(st) /\ KindsSane(st)
-               /\ NamespacesSane(st) /\ LegalNames(st) /\ DepthRule(st)
+               /\ NamespacesSane(st) /\ LegalNames(st) /\ DepthRule(st) /\ ReadersTotal(st)
 =============================================================================
